@@ -108,21 +108,56 @@ structure Store where
 
 /-! ### registry and reference parser (parameters) -/
 
+/-- The class of error `xpkg.Fetcher.Head` fails with.  `PackageRevisioner.Revision` of the
+current tree does not look at it (`if err != nil || d == nil`), and the theorems of
+Props/C14.lean say so for every class:
+`plain` = an opaque error; `temporary` = a `*transport.Error` (bare or wrapped) whose
+`Temporary()` is true (HTTP 408/500/502/503/504, or TOOMANYREQUESTS/UNAVAILABLE/UNKNOWN
+diagnostics), or any other error with a `Temporary() bool` method that answers true;
+`permanent` = a `*transport.Error` with `Temporary()` false (401 UNAUTHORIZED, 404
+MANIFEST_UNKNOWN, 403 DENIED); `timeout` = `context.DeadlineExceeded` / `context.Canceled`. -/
+inductive ErrClass where
+  | plain | temporary | permanent | timeout
+  deriving DecidableEq, Repr, Inhabited
+
+/-- the class of each kind of error the harness' fake registry answers with
+(harness/main/c14.go `c14ErrKinds` / `c14HeadErr`); checked against the classification of the real
+error values by `fetch_error_classes_match_source` -/
+def errClassOfKind : String → ErrClass
+  | "err:503" | "err:503b" | "err:504" | "err:429" | "err:net" => .temporary
+  | "err:401" | "err:404" | "err:403" => .permanent
+  | "err:deadline" | "err:canceled" => .timeout
+  | _ => .plain
+
+def ErrClass.ofString : String → ErrClass
+  | "temporary" => .temporary
+  | "permanent" => .permanent
+  | "timeout" => .timeout
+  | _ => .plain
+
+/-- the outcome of `fetcher.Head(ctx, ref, secrets...)` -/
 inductive Head where
-  | err | nil | digest (d : String)
+  | err (c : ErrClass) | nil | digest (d : String)
   deriving DecidableEq, Repr, Inhabited
 
 structure Env where
   head : String → Head       -- fetcher.Head for a source
   parseOk : String → Bool    -- name.ParseReference succeeds
 
-/-- `PackageRevisioner.Revision`: `error` = an error is returned, `ok ""` = no digest yet. -/
+/-- does `Revision` answer from the package alone, without asking the registry?
+(`PullNever`, or `PullIfNotPresent` with `status.currentIdentifier == spec.package`) -/
+def skipsFetch (p : Pkg) : Bool :=
+  p.spec.pull = .never || (p.spec.pull = .ifNotPresent && p.status.curId = p.spec.source)
+
+/-- `PackageRevisioner.Revision`: `error` = an error is returned, `ok ""` = no digest yet.
+A function of the package (name, spec.package, pull policy, status.currentRevision,
+status.currentIdentifier) and of the fetch outcome only. -/
 def revisionName (env : Env) (p : Pkg) : Except Unit String :=
   if p.spec.pull = .never then .ok (friendlyID p.name p.spec.source)
   else if p.spec.pull = .ifNotPresent ∧ p.status.curId = p.spec.source then .ok p.status.curRev
   else if !env.parseOk p.spec.source then .error ()
   else match env.head p.spec.source with
-    | .err => .error ()
+    | .err _ => .error ()
     | .nil => .ok ""
     | .digest d => .ok (friendlyID p.name d)
 
@@ -195,6 +230,11 @@ def insertRev (r : Rev) : List Rev → List Rev
 def isWrite : Req → Bool
   | .getPkg _ | .listRevs _ | .listImageConfigs | .getRev _ => false
   | _ => true
+
+/-- the requests that write a PackageRevision -/
+def isRevWrite : Req → Bool
+  | .createRev _ _ | .patchRev _ | .updateRev _ | .deleteRev _ => true
+  | _ => false
 
 def exec (s : Store) : Req → Store × Resp
   | .getPkg n =>
